@@ -128,7 +128,7 @@ func (am *YAMLAccountManager) Update(account hotline.Account, newLogin string) e
 
 	// Write to a temporary file and rename it over the account file so a crash never leaves a truncated account.
 	// The temporary name does not end in .yaml, so it is ignored when accounts are loaded.
-	accountFilePath := filepath.Join(am.accountDir, newLogin+".yaml")
+	accountFilePath := filepath.Join(am.accountDir, path.Join("/", newLogin)+".yaml")
 	if err := os.WriteFile(accountFilePath+".tmp", out, 0644); err != nil {
 		return fmt.Errorf("error writing account file: %w", err)
 	}
